@@ -183,7 +183,7 @@ func sameList(o message.Options, m model) bool {
 	return true
 }
 
-var queryIDs = []int{1, 4, 6, 8, 11, 12, 15, 17, 60, 258, 65000, 2, 70}
+var queryIDs = []int{1, 4, 6, 8, 11, 12, 15, 17, 60, 258, 65000, 2, 70, 65535, 65534, 0}
 
 // checkQueries compares every query operation with the model.
 func checkQueries(sc any, step int, o message.Options, m model) *evid.Failure {
